@@ -799,3 +799,48 @@ def rule_preread_then_seek(ctx):
             ctx.holds("PREREADSEEK", key, f.where(), "every pre-read is followed by a seek back before the routine returns in write mode", nontrivial=True)
     ctx.floor("PREREADSEEK", 1, n, "(bit-I/O routines that pre-read a block and end in write mode)")
     return n
+
+
+NEWREF_USERS = {"Hstartwrite": 2, "Hputelement": 2, "Hstartaccess": 2, "Hstartread": 2, "HTPcreate": 2, "HLcreate": 2, "HCcreate": 2, "HXcreate": 2, "HMCcreate": 2, "Hdupdd": 2, "Hexist": 2, "Hlength": 2}
+
+
+def rule_newref_same_tag(ctx):
+    """NEWREFTAG (C17, C12): reference numbers are allocated per tag: Htagnewref(file, T) answers with a reference that is free *for
+    tag T*.  The element then created with that reference must carry the same tag T; created under another tag, the reference may
+    belong to a live object of that tag, and the 'new' object is written over it (DFANIputann taking an annotation's reference
+    from the annotated object's tag)."""
+    prog = ctx.prog
+    n = 0
+    for f in prog.lib_funcs():
+        defs = {}
+        for _b, _i, _s, x in f.nodes(True):
+            if x[0] == "asg" and x[1] == "=":
+                r = strip(x[3])
+                if kind(r) == "call" and r[1] == "Htagnewref" and len(r[3]) >= 2:
+                    t = path(strip(x[2])) or render(strip(x[2]))
+                    defs.setdefault(t, []).append(render(strip(r[3][1])))
+        if not defs:
+            continue
+        # only the first element created with the fresh reference is the one it was allocated for; the old raster conventions
+        # then give companion elements (ID8, IP8, LUT) the same reference on purpose
+        firsts = {}
+        for _b, _i, _s, c in f.calls():
+            pos = NEWREF_USERS.get(c[1])
+            if pos is None or len(c[3]) <= pos:
+                continue
+            ra = strip(c[3][pos])
+            rp = path(ra) or render(ra)
+            if rp in defs and (rp not in firsts or (c[5], c[6]) < (firsts[rp][5], firsts[rp][6])):
+                firsts[rp] = c
+        for rp, c in sorted(firsts.items()):
+            pos = NEWREF_USERS[c[1]]
+            n += 1
+            key = "NEWREFTAG:%s:%s@%s" % (f.name, rp[:30], c[1])
+            tag = render(strip(c[3][pos - 1]))
+            if tag in defs[rp]:
+                ctx.holds("NEWREFTAG", key, f.where(c[5]), "reference allocated for `%s` and used with `%s`" % (tag, tag), nontrivial=True)
+            else:
+                ctx.violated("NEWREFTAG", key, f.where(c[5]), "`%s` was allocated with Htagnewref for tag `%s` but %s() uses it with tag `%s`: it need not be free for that tag, a live object "
+                             "may be overwritten" % (rp, "/".join(sorted(set(defs[rp]))), c[1], tag))
+    ctx.floor("NEWREFTAG", 5, n, "(uses of a reference obtained from Htagnewref)")
+    return n
